@@ -97,7 +97,8 @@ def sp_scale(apis):
                 ('toprefs', 100000), ('nonascii-lines', 100000 if big else 20000)]
         if apis:
             fams = [('nest', 100000 if big else 20000), ('siblings', 100000), ('nonascii-lines', 100000 if big else 20000),
-                    ('attrs', 20000 if big else 2000), ('nsdecls', 20000 if big else 2000), ('text', 100000)]
+                    ('attrs', 20000 if big else 2000), ('nsdecls', 20000 if big else 2000), ('text', 100000),
+                    ('longname-2', 32778), ('longname-3', 21855), ('longname-4', 16394), ('longeq', 300)]
         dist = collections.Counter()
         samples = []
         for fam, n in fams:
@@ -348,8 +349,43 @@ def sp_threads(pid, cfg, tier, seed, exe, chk, violations, broken, notes):
 
 M = ['model', 1500, 10]
 MT = ['model', 20000, 10]
+def sp_dbg_build(then):
+    """C01 quantifies over builds with and without debug-assertions / overflow-checks: the same
+    generated inputs (and the corpus) are parsed by a harness built with both switched on
+    (profile `dbg`); a panic or a dead process there is a violation with that input."""
+    def f(pid, cfg, tier, seed, exe, chk, violations, broken, notes):
+        import props as P
+        res = then(pid, cfg, tier, seed, exe, chk, violations, broken, notes)
+        dexe, log = chk.build_harness(None, profile='dbg')
+        if dexe is None:
+            broken.append({'obligation': 'harness build with debug-assertions and overflow-checks', 'detail': log[-800:]})
+            return res
+        plan = [['model', 1500, 25], ['entities', 6], ['entity-boundary', 1], ['fixtures', 4000], ['mut', 1000, 400], ['enum', 2, 0], ['enum', 2, 2],
+                ['exotic', 10], ['dtdjunk', 90]]
+        if tier == 'thorough':
+            plan = [['model', 30000, 25], ['entities', 32], ['entity-boundary', 1], ['fixtures', 20000], ['mut', 30000, 1000], ['exotic', 100],
+                    ['dtdjunk', 900]] + [['enum', 3, k] for k in range(4)]
+        cases = chk.corpus_cases(pid)
+        for g in plan:
+            cases += chk.gen_cases(exe, g, seed)
+        cases = P.with_limits(cases, seed)
+        impl, _, crashes, _ = chk.run_cases(dexe, cases, 'arena', seed, want_model=False)
+        n = 0
+        for cid, why, lines in crashes:
+            violations.append({'kind': 'crash', 'concrete': True, 'what': f'debug-assertions build: process {why} while parsing this input',
+                               'case': chk.case_text(lines)})
+        for cid, il in impl.items():
+            n += 1
+            if P.res_kind(P.res_line(il)) == 'panic':
+                violations.append({'kind': 'impl-oracle', 'concrete': True, 'what': 'debug-assertions build: parse panicked: ' + P.res_line(il)[:200],
+                                   'case': chk.case_text(il)})
+        notes.append(f'debug-assertions + overflow-checks build: {n} inputs parsed')
+        res['evaluations'] = res.get('evaluations', 0) + n
+        return res
+    return f
+
 SPECIALS = {
-    'scale_parse': sp_scale(False),
+    'scale_parse': sp_dbg_build(sp_scale(False)),
     'scale_api': sp_scale(True),
     'ns_scale': sp_ns_scale,
     'hoist': sp_verdict('hoist', [['model', 3000, 0]], [['model', 40000, 0]], 'impl-oracle',
